@@ -28,6 +28,10 @@ class Config:
         self.track_presence = track_presence
         self.layer_raises = {}                # filled by summaries: 'H5Group.get_dataset' -> {'KeyError'}
         self.opaque_modules = {"nixio.util.units"}
+        self.compose = True
+        self.comp_cache = {}
+        self.comp_stats = {}
+        self.comp_max_paths = 20000
         self._raises = {}
 
     def raises_of(self, f):
@@ -64,8 +68,7 @@ class InterpBase:
         self.M = cfg.model
         self.decisions = list(decisions)
         self.facts = {}
-        for a, v in decisions:
-            self.facts[a] = v
+        self.pending = dict(decisions)
         self.used = []                        # decisions in the order they were consumed
         self._used_set = set()
         self.events = []
@@ -77,17 +80,20 @@ class InterpBase:
         self.frames = []
         self.steps = 0
         self.uid = 0
+        self.uids = {}
+        self.outer_catch = ()
+        self.outer_ctrl = frozenset()
         self.notes = []
-        for a, v in decisions:
-            self._apply_fact(a, v)
 
     # ------------------------------------------------------------------ decisions
     def decide(self, atom, domain=(True, False)):
         if atom in self.facts:
-            if atom not in self._used_set:
-                self._used_set.add(atom)
-                self.used.append((atom, self.facts[atom]))
             return self.facts[atom]
+        if atom in self.pending:
+            v = self.pending.pop(atom)
+            self.facts[atom] = v
+            self._apply_fact(atom, v)
+            return v
         raise Need(atom, domain)
 
     def _apply_fact(self, atom, val):
@@ -103,9 +109,12 @@ class InterpBase:
             self.refined[t] = frozenset([obj(cname)])
 
     def fresh(self, node):
-        """deterministic id for an allocation / call site on this path"""
-        self.uid += 1
-        return "%d@%s" % (self.uid, getattr(node, "lineno", 0))
+        """deterministic id for an allocation / call site on this path: n-th occurrence at this source position"""
+        k = (self.frames[-1].module.relpath if self.frames else "", getattr(node, "lineno", 0),
+             getattr(node, "col_offset", 0))
+        n = self.uids.get(k, 0) + 1
+        self.uids[k] = n
+        return "%s:%d:%d#%d" % (k[0].split("/")[-1], k[1], k[2], n)
 
     # ------------------------------------------------------------------ typing helpers
     def ty(self, v):
@@ -217,7 +226,6 @@ class InterpBase:
         if c[0] == "const" and c[1] in ("", 0, False) and self.facts.get(("truthy", x)) is True:
             return False
         r = self.decide(("eq", x, c))
-        self._apply_fact(("eq", x, c), r)
         return r
 
     def _constlike(self, t):
@@ -273,9 +281,10 @@ from .px_expr import ExprMixin
 from .px_attr import AttrMixin, PRESENT
 from .px_call import CallMixin
 from .px_stmt import StmtMixin
+from .px_comp import CompMixin
 
 
-class Interp(InterpBase, ExprMixin, AttrMixin, CallMixin, StmtMixin):
+class Interp(InterpBase, ExprMixin, AttrMixin, CallMixin, StmtMixin, CompMixin):
 
     def __init__(self, cfg, decisions, func, recv_class=None, args=None, closure_env=None, root_self=None):
         InterpBase.__init__(self, cfg, decisions)
@@ -342,6 +351,8 @@ class Interp(InterpBase, ExprMixin, AttrMixin, CallMixin, StmtMixin):
                                 del self.heap[(selfv.t, tg.attr)]
 
     def execute(self):
+        if getattr(self, 'sub_env', None) is not None:
+            return self.execute_sub()
         f = self.func
         env, selfv = self.root_env()
         fr = Frame(f, env, selfv, f.cls or getattr(f, "owner_cls", None), f.module)
